@@ -44,6 +44,9 @@ Apply(m, o) ==
     [] o.op = "Load" -> DoLoad(m, o.t, o.id)
     [] o.op = "Remove" -> DoRemove(m, o.t, o.id)
     [] o.op = "List" -> DoList(m, o.t)
+    \* "Burst": rounds of a FRESH in-memory storage on which several clients perform the first store of a type at the same
+    \* moment, then every stored id is loaded and listed; by linearisability every acknowledged store is there: "ok"
+    [] o.op = "Burst" -> R("ok", Absent, {}, m)
 
 IdsE == Ids \cup {""}
 Ops == [op : {"Store"}, t : AllTypes, id : IdsE, v : Vals] \cup [op : {"Load", "Remove"}, t : AllTypes, id : IdsE, v : {Absent}]
@@ -60,4 +63,5 @@ AllowedC19(m, o, res, val, ids, m2) ==
         ELSE (res = "ok" /\ m2 = [m EXCEPT ![<<o.t, o.id>>] = o.v]))                \* other types with the same id are untouched
   /\ (o.op = "Remove" /\ o.t \in Known /\ o.id # "" => m2 = [m EXCEPT ![<<o.t, o.id>>] = Absent])
   /\ (o.op \in {"Load", "List"} => m2 = m)
+  /\ (o.op = "Burst" => res = "ok")                                              \* no acknowledged store may be missing
 =============================================================================
